@@ -514,6 +514,7 @@ func seqAxioms(S, E string) string {
 (assert (forall ((s $S) (a Int) (b Int) (i Int)) (! (=> (and (<= 0 a) (<= a b) (<= b ($S.len s)) (<= 0 i) (< i (- b a))) (= ($S.nth ($S.slice s a b) i) ($S.nth s (+ a i)))) :pattern (($S.nth ($S.slice s a b) i)))))
 (assert (forall ((s $S)) (! (= ($S.slice s 0 ($S.len s)) s) :pattern (($S.slice s 0 ($S.len s))))))
 (assert (forall ((s $S) (x $E)) (! (= ($S.slice ($S.snoc s x) 0 ($S.len s)) s) :pattern (($S.slice ($S.snoc s x) 0 ($S.len s))))))
+(assert (forall ((s $S) (x $E) (k Int)) (! (=> (and (<= 0 k) (<= k ($S.len s))) (= ($S.slice ($S.snoc s x) 0 k) ($S.slice s 0 k))) :pattern (($S.slice ($S.snoc s x) 0 k)))))
 (assert (forall ((s $S) (a Int) (b Int) (c Int) (d Int)) (! (=> (and (<= 0 a) (<= a b) (<= b ($S.len s)) (<= 0 c) (<= c d) (<= d (- b a))) (= ($S.slice ($S.slice s a b) c d) ($S.slice s (+ a c) (+ a d)))) :pattern (($S.slice ($S.slice s a b) c d)))))
 (assert (forall ((s $S) (i Int) (x $E)) (! (= ($S.len ($S.upd s i x)) ($S.len s)) :pattern (($S.upd s i x)))))
 (assert (forall ((s $S) (i Int) (x $E) (j Int)) (! (=> (and (<= 0 i) (< i ($S.len s))) (= ($S.nth ($S.upd s i x) j) (ite (= i j) $X ($S.nth s j)))) :pattern (($S.nth ($S.upd s i x) j)))))
